@@ -8,13 +8,13 @@
    interpretation of lgamma and log, in particular the real ones.  No size bound on data, cardinalities or
    number of parents unless the theorem name says so.
 
-   Finite-domain: C10_equiv_by_covered_reversals_upto4 and C10_score_equivalent_upto4 (<= 4 nodes, vm_compute
-   over all DAGs); for general n the connection of Markov-equivalent DAGs by covered reversals is Chickering's
-   theorem (1995) and is NOT proved; everything else in the chain (C10_parent_order, C10_covered_reversal,
-   C10_covered_reversal_score) is proved for all sizes. *)
+   Score equivalence: C10_chickering (Chickering's transformation theorem, any number of nodes) and
+   C10_score_equivalence (BDeu/BIC/AIC equal on Markov-equivalent DAGs of any size) are proved by induction on
+   the number of differing arcs; C10_equiv_by_covered_reversals_upto4 and C10_score_equivalent_upto4 are the
+   earlier finite-domain versions (vm_compute over all DAGs on <= 4 nodes), kept as an independent check. *)
 From Coq Require Import List ZArith QArith Qcanon Bool Arith Lia Permutation Relations.
 From PV Require Import Base.Formal C10.Model C10.Spec C10.Counts C10.Closed C10.Cache C10.Invar C10.Equiv
-  C10.Reversal C10.ParentOrder C10.Chain.
+  C10.Reversal C10.ParentOrder C10.Chain C10.ProofsChickering C10.ProofsChickeringGraph.
 Import ListNotations.
 Local Open Scope Qc_scope.
 
@@ -181,3 +181,72 @@ Theorem C10_score_equivalent_upto4 : forall cards d sc n g h, (n <= 4)%nat ->
   norm (total_score cards d sc (seq 0 n) g) = norm (total_score cards d sc (seq 0 n) h).
 Proof. exact score_equivalent_upto4. Qed.
 Print Assumptions C10_score_equivalent_upto4.
+
+Local Close Scope Qc_scope.
+Local Close Scope Q_scope.
+Local Open Scope nat_scope.
+(* ---------------------------------------------------------------- Chickering's transformation theorem, all sizes.
+   Graphs are arc lists; [simple n g]: no repeated arc, endpoints among 0..n-1; [is_dag g]: some rank function
+   increases along every arc; [meq g h]: same skeleton and same v-structures (Verma & Pearl);
+   [good_step n g g']: g' is g with one covered arc reversed, both simple DAGs of the same class. *)
+Theorem C10_chickering : forall n g h, simple n g -> is_dag g -> is_dag h -> meq g h ->
+  exists g', clos_refl_trans _ (good_step n) g g' /\ simple n g' /\ is_dag g' /\ same_edges g' h.
+Proof. exact chickering. Qed.
+Print Assumptions C10_chickering.
+Example C10_chickering_nonvacuous :
+  simple 4 [(0, 1); (1, 2); (3, 2)] /\ is_dag [(0, 1); (1, 2); (3, 2)] /\ is_dag [(1, 0); (1, 2); (3, 2)]
+  /\ meq [(0, 1); (1, 2); (3, 2)] [(1, 0); (1, 2); (3, 2)].
+Proof.
+  assert (S1 : simple 4 [(0, 1); (1, 2); (3, 2)]).
+  { split; [repeat constructor; simpl; intuition congruence|]. intros u v H. simpl in H.
+    repeat (destruct H as [H|H]; [inversion H; subst; split; lia|]). destruct H. }
+  assert (S2 : simple 4 [(1, 0); (1, 2); (3, 2)]).
+  { split; [repeat constructor; simpl; intuition congruence|]. intros u v H. simpl in H.
+    repeat (destruct H as [H|H]; [inversion H; subst; split; lia|]). destruct H. }
+  split; [exact S1|]. split; [|split].
+  - exists (fun v => match v with 0 => 0 | 1 => 1 | 3 => 0 | _ => 2 end). intros u v H. simpl in H.
+    repeat (destruct H as [H|H]; [inversion H; subst; simpl; lia|]). destruct H.
+  - exists (fun v => match v with 0 => 1 | 1 => 0 | 3 => 0 | _ => 2 end). intros u v H. simpl in H.
+    repeat (destruct H as [H|H]; [inversion H; subst; simpl; lia|]). destruct H.
+  - apply (mequiv_meq 4); [exact S1 | exact S2 | vm_compute; reflexivity].
+Qed.
+
+(* the key step (Chickering's Find-Edge): while some arc of g is reversed in h, there is one that is covered in g *)
+Theorem C10_find_covered_edge : forall og oh g h, ranked og g -> ranked oh h -> meq g h -> diff g h <> [] ->
+  exists x y, In (x, y) g /\ In (y, x) h /\ coveredP g x y.
+Proof. exact find_edge. Qed.
+Print Assumptions C10_find_covered_edge.
+
+(* BDeu, BIC and AIC assign identical score(model), as formal sums, to Markov-equivalent DAGs of ANY size, for
+   every data set on at least n columns *)
+Theorem C10_score_equivalence : forall cards d sc n g h, equiv_score sc -> wf_data cards d ->
+  (n <= length cards)%nat -> simple n g -> simple n h -> is_dag g -> is_dag h -> meq g h ->
+  norm (total_score cards d sc (seq 0 n) g) = norm (total_score cards d sc (seq 0 n) h).
+Proof. exact score_equivalence. Qed.
+Print Assumptions C10_score_equivalence.
+
+(* the same two theorems with the framework's standard notions: path-based acyclicity (Base/Graph.v) and the
+   Markov equivalence of C18/Spec.v, which C18_iequiv_iff proves to be what DAG.is_iequivalent decides;
+   [graph_ok n gr]: distinct nodes among 0..n-1, arcs between nodes, no repeated arc *)
+Theorem C10_chickering_graph : forall n gr hr, graph_ok n gr -> G.acyclic gr -> G.wf_graph hr -> G.acyclic hr ->
+  S18.markov_equivalent gr hr ->
+  exists g', clos_refl_trans _ (good_step n) (G.edges gr) g' /\ simple n g' /\ is_dag g'
+             /\ same_edges g' (G.edges hr).
+Proof. exact chickering_graph. Qed.
+Print Assumptions C10_chickering_graph.
+
+Theorem C10_score_equivalence_graph : forall cards d sc n gr hr, equiv_score sc -> wf_data cards d ->
+  (n <= length cards)%nat -> graph_ok n gr -> graph_ok n hr -> G.acyclic gr -> G.acyclic hr ->
+  S18.markov_equivalent gr hr ->
+  norm (total_score cards d sc (seq 0 n) (G.edges gr)) = norm (total_score cards d sc (seq 0 n) (G.edges hr)).
+Proof. exact score_equivalence_graph. Qed.
+Print Assumptions C10_score_equivalence_graph.
+
+(* the notions agree: a rank function exists exactly for the acyclic graphs; the boolean equivalence test used by
+   the finite-domain theorems implies [meq] *)
+Theorem C10_dag_iff_acyclic : forall gr, G.wf_graph gr -> (is_dag (G.edges gr) <-> G.acyclic gr).
+Proof. intros gr Hw. split; [apply ranked_acyclic | apply acyclic_ranked; assumption]. Qed.
+Print Assumptions C10_dag_iff_acyclic.
+Theorem C10_mequiv_meq : forall n g h, simple n g -> simple n h -> mequiv n g h = true -> meq g h.
+Proof. exact mequiv_meq. Qed.
+Print Assumptions C10_mequiv_meq.
